@@ -1,6 +1,6 @@
 (* Property C10, Container / Document half — statements only.  Each is closed by [exact] of a lemma proved elsewhere. *)
 From Coq Require Import List ZArith Bool. Import ListNotations.
-Require Import Package PkgCloneproof PkgInstproof.
+Require Import Package Pkgproof PkgStepWF PkgStepWF4 PkgCloneproof PkgPairproof PkgHistproof PkgInstproof.
 Open Scope Z_scope.
 
 (* C10_lazy_parts: a clone has no path, and the part map of a path-less document does not depend on the file system:
@@ -38,10 +38,154 @@ Theorem C10_clone_modifies_original_refuted : exists fs d n, cview fs (fst (cd_c
 Proof. exact f37_refuted. Qed.
 Print Assumptions C10_clone_modifies_original_refuted.
 
-(* full strength: equal at birth and original untouched, for every well-formed state.  Not proved in general (the witness
-   above shows it for one non-trivial state of the repaired model); the correspondence evaluates both equalities, strictly,
-   on every clone the histories take. *)
-Definition C10_doc_equal_at_birth_full : Prop :=
-  forall (fs : cfs) (d : cdoc) (n : name), cWFdb fs d = true ->
-    opt_eqb ccont_eqb (cview fs (snd (cd_clone FIXED fs d)) n) (cview fs d n) = true
-    /\ opt_eqb ccont_eqb (cview fs (fst (cd_clone FIXED fs d)) n) (cview fs d n) = true.
+(* C10_doc_equal_at_birth (repaired code), for every state with FsOK and WFd: the clone shows the original's part map, and cloning leaves the original's part map as it was *)
+Theorem C10_doc_equal_at_birth :
+  forall (xml bytes kid : Type) (ser : xml -> bytes)
+           (par : bytes -> xml) (mask : xml -> xml),
+         (forall x : xml, par (ser x) = x) ->
+         forall (fs : fsys bytes kid) (d : document xml bytes),
+         FsOK bytes kid fs ->
+         WFd xml bytes kid fs d ->
+         (forall n : name,
+          view xml bytes kid par mask fs
+            (snd (d_clone xml bytes kid ser par FIXED fs d)) n =
+          view xml bytes kid par mask fs d n) /\
+         (forall n : name,
+          view xml bytes kid par mask fs
+            (fst (d_clone xml bytes kid ser par FIXED fs d)) n =
+          view xml bytes kid par mask fs d n).
+Proof. exact clone_equal_at_birth. Qed.
+Print Assumptions C10_doc_equal_at_birth.
+
+(* ... for every state reachable by any history *)
+Theorem C10_doc_equal_at_birth_reachable :
+  forall (xml bytes kid : Type) (ser : xml -> bytes)
+           (par : bytes -> xml) (pretty stamp : xml -> xml)
+           (entries : xml -> mentries) (with_entries : mentries -> xml -> xml)
+           (kids : xml -> list kid) (mime : bytes -> mtype)
+           (mime_bytes : mtype -> bytes) (rdf0 : bytes) 
+           (mask : xml -> xml),
+         (forall x : xml, par (ser x) = x) ->
+         forall (s0 : fsys bytes kid * document xml bytes)
+           (os : list (op xml bytes)),
+         SInv xml bytes kid s0 ->
+         let fs :=
+           fst
+             (run xml bytes kid ser par pretty stamp entries with_entries kids
+                mime mime_bytes rdf0 FIXED s0 os) in
+         let d :=
+           snd
+             (run xml bytes kid ser par pretty stamp entries with_entries kids
+                mime mime_bytes rdf0 FIXED s0 os) in
+         (forall n : name,
+          view xml bytes kid par mask fs
+            (snd (d_clone xml bytes kid ser par FIXED fs d)) n =
+          view xml bytes kid par mask fs d n) /\
+         (forall n : name,
+          view xml bytes kid par mask fs
+            (fst (d_clone xml bytes kid ser par FIXED fs d)) n =
+          view xml bytes kid par mask fs d n).
+Proof. exact clone_equal_at_birth_reachable. Qed.
+Print Assumptions C10_doc_equal_at_birth_reachable.
+
+(* independence, one operation: the part map of the other document is unchanged unless the operation saves onto the very file the other still reads from *)
+Theorem C10_other_untouched :
+  forall (xml bytes kid : Type) (ser : xml -> bytes)
+           (par : bytes -> xml) (pretty stamp : xml -> xml)
+           (entries : xml -> mentries) (with_entries : mentries -> xml -> xml)
+           (kids : xml -> list kid) (mime : bytes -> mtype)
+           (mime_bytes : mtype -> bytes) (rdf0 : bytes) 
+           (mask : xml -> xml) (fs : fsys bytes kid)
+           (d other : document xml bytes) (o : op xml bytes),
+         (forall (t : target) (pk : packaging) (pty : bool),
+          o = OSave t pk pty ->
+          cpath bytes (cont xml bytes other) <> Some (tgt_id t)) ->
+         forall n : name,
+         view xml bytes kid par mask
+           (fst
+              (fst
+                 (step xml bytes kid ser par pretty stamp entries with_entries
+                    kids mime mime_bytes rdf0 FIXED (
+                    fs, d) o))) other n =
+         view xml bytes kid par mask fs other n.
+Proof. exact other_untouched. Qed.
+Print Assumptions C10_other_untouched.
+
+(* independence on the pair state (file system, original, clone), one step of any interleaving: the document not operated on is literally the same and shows the same part map *)
+Theorem C10_independent_step :
+  forall (xml bytes kid : Type) (ser : xml -> bytes)
+           (par : bytes -> xml) (pretty stamp : xml -> xml)
+           (entries : xml -> mentries) (with_entries : mentries -> xml -> xml)
+           (kids : xml -> list kid) (mime : bytes -> mtype)
+           (mime_bytes : mtype -> bytes) (rdf0 : bytes) 
+           (mask : xml -> xml) (fs : fsys bytes kid)
+           (d1 d2 : document xml bytes) (a : side * op xml bytes),
+         let
+         '(fs', d1', d2') :=
+          pstep xml bytes kid ser par pretty stamp entries with_entries kids
+            mime mime_bytes rdf0 (fs, d1, d2) a in
+          match fst a with
+          | OnOriginal =>
+              d2' = d2 /\
+              (cpath bytes (cont xml bytes d2) = None ->
+               forall n : name,
+               view xml bytes kid par mask fs' d2 n =
+               view xml bytes kid par mask fs d2 n)
+          | OnClone =>
+              d1' = d1 /\
+              (respects xml bytes (cpath bytes (cont xml bytes d1)) a ->
+               forall n : name,
+               view xml bytes kid par mask fs' d1 n =
+               view xml bytes kid par mask fs d1 n)
+          end.
+Proof. exact pstep_independent. Qed.
+Print Assumptions C10_independent_step.
+
+(* any history on the clone leaves the original as it was *)
+Theorem C10_clone_ops_leave_original :
+  forall (xml bytes kid : Type) (ser : xml -> bytes)
+           (par : bytes -> xml) (pretty stamp : xml -> xml)
+           (entries : xml -> mentries) (with_entries : mentries -> xml -> xml)
+           (kids : xml -> list kid) (mime : bytes -> mtype)
+           (mime_bytes : mtype -> bytes) (rdf0 : bytes) 
+           (mask : xml -> xml) (h : list (side * op xml bytes))
+           (fs : fsys bytes kid) (d1 d2 : document xml bytes),
+         List.Forall
+           (fun a : side * op xml bytes =>
+            fst a = OnClone /\
+            respects xml bytes (cpath bytes (cont xml bytes d1)) a) h ->
+         let
+         '(fs', d1', _) :=
+          prun xml bytes kid ser par pretty stamp entries with_entries kids
+            mime mime_bytes rdf0 (fs, d1, d2) h in
+          d1' = d1 /\
+          (forall n : name,
+           view xml bytes kid par mask fs' d1 n =
+           view xml bytes kid par mask fs d1 n).
+Proof. exact clone_ops_leave_original. Qed.
+Print Assumptions C10_clone_ops_leave_original.
+
+(* any history on the original leaves the clone as it was *)
+Theorem C10_original_ops_leave_clone :
+  forall (xml bytes kid : Type) (ser : xml -> bytes)
+           (par : bytes -> xml) (pretty stamp : xml -> xml)
+           (entries : xml -> mentries) (with_entries : mentries -> xml -> xml)
+           (kids : xml -> list kid) (mime : bytes -> mtype)
+           (mime_bytes : mtype -> bytes) (rdf0 : bytes) 
+           (mask : xml -> xml) (h : list (side * op xml bytes))
+           (fs : fsys bytes kid) (d1 d2 : document xml bytes),
+         cpath bytes (cont xml bytes d2) = None ->
+         List.Forall (fun a : side * op xml bytes => fst a = OnOriginal) h ->
+         let
+         '(fs', _, d2') :=
+          prun xml bytes kid ser par pretty stamp entries with_entries kids
+            mime mime_bytes rdf0 (fs, d1, d2) h in
+          d2' = d2 /\
+          (forall n : name,
+           view xml bytes kid par mask fs' d2 n =
+           view xml bytes kid par mask fs d2 n).
+Proof. exact original_ops_leave_clone. Qed.
+Print Assumptions C10_original_ops_leave_clone.
+
+Example C10_example : FsOK cbytes Z ex_fs /\ WFd cxml cbytes Z ex_fs ex_doc /\ (forall x, cpar (cser x) = x).
+Proof. exact (conj ex_fs_ok (conj ex_doc_wf cpar_cser)). Qed.
